@@ -324,11 +324,12 @@ theorem kGradE_coincident_zero (e : ℝ) (c : Cov ℝ) (hc : c.NoLinear) (x : Li
     simp only [Cov.kGradE]
     exact ((ih hc _).map _ (by simp)).expand ad _
 
-/-- **The guard of `Pow.k_grad`**: where the base value is not positive (in float64: underflowed to 0)
-    the gradient of the power node is exactly `0`, for every exponent, operand and guard. -/
-theorem kGradE_pow_nonpos_zero (e : ℝ) (l : Cov ℝ) (p : ℝ) (ad : ActiveDims) (x y : List ℝ)
-    (h : ¬ 0 < l.k (select ad x) (select ad y)) : AllZero ((Cov.pow l p ad).kGradE e x y) := by
-  simp only [Cov.kGradE, h, if_false]
+/-- **The guard of `Pow.k_grad`** (`where((base_k == 0) & (p < 1), 0.0, …)`): where the base value is
+    exactly `0` (in float64: underflowed to 0) and the exponent is `< 1`, the gradient of the power node is
+    exactly `0`, for every operand and guard — instead of `p · 0^(p−1) · 0 = ∞ · 0`. -/
+theorem kGradE_pow_zero_lt1_zero (e : ℝ) (l : Cov ℝ) (p : ℝ) (ad : ActiveDims) (x y : List ℝ)
+    (h0 : l.k (select ad x) (select ad y) = 0) (hp : p < 1) : AllZero ((Cov.pow l p ad).kGradE e x y) := by
+  simp only [Cov.kGradE, if_pos ((powGuard_iff _ p).mpr ⟨h0, hp⟩)]
   apply AllZero.expand
   intro v hv
   obtain ⟨a, _, rfl⟩ := List.mem_map.mp hv
